@@ -70,7 +70,7 @@ Fixpoint anode_update (a : anode) (op var : string) (v : val) : option anode :=
   end.
 (* `val[i] if hasattr(val, 'shape') and sum(val.shape) == n_nodes else val` (1-d arrays) *)
 Definition pick (v : val) (i n : nat) : val :=
-  match v with Arr l => if Nat.eqb (List.length l) n then Sc (nth i l 0%Qc) else v | Sc _ => v end.
+  match v with Arr l => if Nat.eqb (List.length l) n then Sc (nth i l 0%Qc) else v | _ => v end.
 Fixpoint edges_update (es : list edge) (s t : string) (upd : vars) : option (list edge) :=
   match es with
   | [] => None
@@ -78,8 +78,13 @@ Fixpoint edges_update (es : list edge) (s t : string) (upd : vars) : option (lis
     if String.eqb s s' && String.eqb t t' then Some ((s', t', dupdate a upd) :: r)
     else match edges_update r s t upd with Some r' => Some ((s', t', a) :: r') | None => None end
   end.
+Definition prefix_str (n p : string) : string := String.append n (String.append "/" p).
+(* collect_edges lifts an edge of a sub-circuit into the caller's scope: source, target and every variable path held as a
+   string-valued attribute get the sub-circuit's name in front ('source' is a keyword, it is not modelled as a Ref) *)
+Definition prefix_attrs (n : string) (a : vars) : vars :=
+  map (fun kv => (fst kv, match snd kv with Ref p => Ref (prefix_str n p) | v => v end)) a.
 Definition prefix_edge (n : string) (e : edge) : edge :=
-  let '(s, t, a) := e in (String.append n (String.append "/" s), String.append n (String.append "/" t), a).
+  let '(s, t, a) := e in (prefix_str n s, prefix_str n t, prefix_attrs n a).
 
 (* ---------------------------------------------------------------- Impl: on the store *)
 Fixpoint get_nodes (d : nat) (h : heap) (c : id) (pat : path) : option (list path) :=
@@ -313,16 +318,27 @@ Definition overrides (resolve : path -> option (list path)) (nv : list nv_entry)
   end.
 (* OperatorGraphTemplate.apply + OperatorTemplate.apply: variations (copied), overridden by the passed values,
    every remaining variable of the operator from its defaults *)
-Definition render_node (ovs : list (okey * val)) (n : path) (a : anode) : list (okey * val) :=
+(* fix D97: a variable declared by a bare integer (ScI) has dtype 'int'; before the fix (fx = false) every value that
+   reaches it is cast to that dtype when the backend variable is created (numpy: truncation toward zero); since the fix
+   the dtype follows the value (fx = true) *)
+Definition trunc_q (q : Qc) : Qc := Q2Qc (inject_Z (Z.quot (Qnum (this q)) (Zpos (Qden (this q))))).
+Definition cast_val (fx : bool) (dflt v : val) : val :=
+  let v' := match v with ScI z => Sc (Q2Qc (inject_Z z)) | _ => v end in
+  match dflt with
+  | ScI _ => if fx then v' else match v' with Sc q => Sc (trunc_q q) | Arr l => Arr (map trunc_q l) | _ => v' end
+  | _ => v'
+  end.
+Definition render_node (fx : bool) (ovs : list (okey * val)) (n : path) (a : anode) : list (okey * val) :=
   flat_map (fun o : aop =>
               let '(opn, _, defs, vs) := o in
               map (fun dv => ((n, opn, fst dv),
-                              match ov_get ovs (n, opn, fst dv) with
-                              | Some v => v
-                              | None => match dget (fst dv) vs with Some v => v | None => snd dv end
-                              end)) defs) a.
-Definition render (ovs : list (okey * val)) (nodes : list (path * anode)) : list (okey * val) :=
-  flat_map (fun na => render_node ovs (fst na) (snd na)) nodes.
+                              cast_val fx (snd dv)
+                                (match ov_get ovs (n, opn, fst dv) with
+                                 | Some v => v
+                                 | None => match dget (fst dv) vs with Some v => v | None => snd dv end
+                                 end))) defs) a.
+Definition render (fx : bool) (ovs : list (okey * val)) (nodes : list (path * anode)) : list (okey * val) :=
+  flat_map (fun na => render_node fx ovs (fst na) (snd na)) nodes.
 Definition all_pat (d : nat) : path := repeat all (S d).
 
 Definition nodes_of (d : nat) (r : id) (h : heap) : option (list (path * anode)) :=
@@ -398,28 +414,41 @@ Definition ev_apply (ev : list ev_entry) (e : edge) : edge :=
   end.
 (* a value that is still an array of >= 2 elements (its length did not match the number of addressed nodes) makes the
    compilation raise ("Shapes of state variable ... do not match") *)
-Definition bad_val (v : val) : bool := match v with Arr l => Nat.leb 2 (List.length l) | Sc _ => false end.
+Definition bad_val (v : val) : bool := match v with Arr l => Nat.leb 2 (List.length l) | _ => false end.
+(* a variable path held by an edge attribute must name a variable of the compiled circuit ("Could not find object with path") *)
+Definition key_str (k : okey) : string := let '(p, o, v) := k in String.concat "/" (p ++ [o; v]).
+Definition bad_ref (vals : list (okey * val)) (e : edge) : bool :=
+  let '(_, _, a) := e in
+  existsb (fun kv => match snd kv with
+                     | Ref p => negb (existsb (fun x => String.eqb (key_str (fst x)) p) vals)
+                     | _ => false end) a.
 Definition finish (vals : list (okey * val)) (es : list edge) (ev : list ev_entry) : hout :=
-  if existsb (fun kv => bad_val (snd kv)) vals then ORaised else OObs vals (map (ev_apply ev) es).
+  if existsb (fun kv => bad_val (snd kv)) vals || existsb (bad_ref vals) es then ORaised else OObs vals (map (ev_apply ev) es).
 
-Definition observe (d : nat) (r : id) (h : heap) (nv : list nv_entry) (ev : list ev_entry) : hout :=
+Definition observe_gen (fx : bool) (d : nat) (r : id) (h : heap) (nv : list nv_entry) (ev : list ev_entry) : hout :=
   match nodes_of d r h, overrides (get_nodes d h r) nv, collect_edges d h r with
-  | Some ns, Some ovs, Some es => finish (render ovs ns) es ev
+  | Some ns, Some ovs, Some es => finish (render fx ovs ns) es ev
   | _, _, _ => ORaised
   end.
-Definition tobserve (d : nat) (t : atree) (nv : list nv_entry) (ev : list ev_entry) : hout :=
+Definition tobserve_gen (fx : bool) (d : nat) (t : atree) (nv : list nv_entry) (ev : list ev_entry) : hout :=
   match tnodes_of d t, overrides (tget_nodes t) nv with
-  | Some ns, Some ovs => finish (render ovs ns) (tcollect_edges t) ev
+  | Some ns, Some ovs => finish (render fx ovs ns) (tcollect_edges t) ev
   | _, _ => ORaised
   end.
+(* One-line switch, read by harness/c07.py (overridable by VERIF_C07_D97_FIXED): false = the code as it is (int-declared
+   variables truncate the values they are given), true = the repair /verif/fixes/fix_D97.diff. *)
+Definition fixed_D97 : bool := false.
+Definition observe := observe_gen true.      (* the measurement used by C14 (its templates declare floats) *)
+Definition tobserve := tobserve_gen true.
 
 (* Impl state: the store, the template object the user's variable holds (update_template without in_place returns a
-   new object) and the base templates that were left behind: they can still be compiled (ObserveBase) and must be unchanged.  Since fix D75 update_template(edges=.., in_place=True) rebuilds `_edge_map` from the new edge list
+   new object) and the base templates that were left behind: they can still be compiled (ObserveBase) and must be unchanged.
+   Since fix D75 update_template(edges=.., in_place=True) rebuilds `_edge_map` from the new edge list
    (`self._edge_map = {}; self.edges = self._load_edge_templates(edges)`), so get_edge always finds the first own edge. *)
 Definition istate := (heap * id * list id)%type.    (* store, current template, the base templates left behind (newest first) *)
 Definition sstate := (atree * list atree)%type.
 
-Definition stepI (d : nat) (st : istate) (o : hop) : istate * hout :=
+Definition stepI_gen (fx : bool) (d : nat) (st : istate) (o : hop) : istate * hout :=
   let '(h, r, olds) := st in
   match o with
   | UpdVar pat op var v => match update_var d r h pat op var v with Some h' => ((h', r, olds), ODone) | None => (st, ORaised) end
@@ -429,10 +458,10 @@ Definition stepI (d : nat) (st : istate) (o : hop) : istate * hout :=
     | Some (h', r') => ((h', r', if inpl then olds else r :: olds), ODone)
     | None => (st, ORaised)
     end
-  | Observe nv ev => (st, observe d r h nv ev)
-  | ObserveBase k => (st, match nth_error olds k with Some b => observe d b h [] [] | None => ORaised end)
+  | Observe nv ev => (st, observe_gen fx d r h nv ev)
+  | ObserveBase k => (st, match nth_error olds k with Some b => observe_gen fx d b h [] [] | None => ORaised end)
   end.
-Definition stepS (d : nat) (st : sstate) (o : hop) : sstate * hout :=
+Definition stepS_gen (fx : bool) (d : nat) (st : sstate) (o : hop) : sstate * hout :=
   let '(t, olds) := st in
   match o with
   | UpdVar pat op var v => match tupdate_var t pat op var v with Some t' => ((t', olds), ODone) | None => (st, ORaised) end
@@ -442,19 +471,22 @@ Definition stepS (d : nat) (st : sstate) (o : hop) : sstate * hout :=
     | Some t' => ((t', if inpl then olds else t :: olds), ODone)
     | None => (st, ORaised)
     end
-  | Observe nv ev => (st, tobserve d t nv ev)
-  | ObserveBase k => (st, match nth_error olds k with Some b => tobserve d b [] [] | None => ORaised end)
+  | Observe nv ev => (st, tobserve_gen fx d t nv ev)
+  | ObserveBase k => (st, match nth_error olds k with Some b => tobserve_gen fx d b [] [] | None => ORaised end)
   end.
-Fixpoint runI (d : nat) (st : istate) (ops : list hop) : istate * list hout :=
+Fixpoint runI_gen (fx : bool) (d : nat) (st : istate) (ops : list hop) : istate * list hout :=
   match ops with
   | [] => (st, [])
-  | o :: rest => let '(s1, out) := stepI d st o in let '(s2, outs) := runI d s1 rest in (s2, out :: outs)
+  | o :: rest => let '(s1, out) := stepI_gen fx d st o in let '(s2, outs) := runI_gen fx d s1 rest in (s2, out :: outs)
   end.
-Fixpoint runS' (d : nat) (st : sstate) (ops : list hop) : sstate * list hout :=
+Fixpoint runS_gen (fx : bool) (d : nat) (st : sstate) (ops : list hop) : sstate * list hout :=
   match ops with
   | [] => (st, [])
-  | o :: rest => let '(s1, out) := stepS d st o in let '(s2, outs) := runS' d s1 rest in (s2, out :: outs)
+  | o :: rest => let '(s1, out) := stepS_gen fx d st o in let '(s2, outs) := runS_gen fx d s1 rest in (s2, out :: outs)
   end.
+(* the code as it is / the specification: an override reaches its target exactly *)
+Definition runI := runI_gen fixed_D97.
+Definition runS' := runS_gen true.
 Definition runS (d : nat) (t : atree) (ops : list hop) : sstate * list hout := runS' d (t, []) ops.
 Definition init_state (h : heap) (r : id) : istate := (h, r, []).
 
@@ -463,6 +495,8 @@ Definition val_eqb (a b : val) : bool :=
   match a, b with
   | Sc x, Sc y => Qc_eqb x y
   | Arr x, Arr y => Nat.eqb (List.length x) (List.length y) && forallb (fun p => Qc_eqb (fst p) (snd p)) (combine x y)
+  | ScI x, ScI y => Z.eqb x y
+  | Ref x, Ref y => String.eqb x y
   | _, _ => false
   end.
 Definition ol_get (l : list (okey * val)) (k : okey) : option val :=
@@ -471,9 +505,15 @@ Definition ol_get (l : list (okey * val)) (k : okey) : option val :=
    (source variable, target variable) pair with a non-zero coefficient in the compiled vector field, that coefficient =
    the summed weight of the model's edges between them; every model edge must be among the listed pairs *)
 Definition weight_of (a : vars) : Qc := match dget "weight"%string a with Some (Sc q) => q | _ => 1%Qc end.
+(* an edge through an edge template with an extra input `t_ref` (a Ref attribute) computes weight * (source + referenced
+   variable): the referenced variable is a second source of the same weight *)
+Definition edge_mult (e : edge) (s : string) : nat :=
+  let '(s', _, a) := e in
+  (if String.eqb s s' then 1 else 0) +
+  List.length (filter (fun kv : string * val => match snd kv with Ref p => String.eqb s p | _ => false end) a).
 Definition edge_sum (es : list edge) (s t : string) : Qc :=
-  fold_left (fun acc e => let '(s', t', a) := e in
-                          if String.eqb s s' && String.eqb t t' then (acc + weight_of a)%Qc else acc) es 0%Qc.
+  fold_left (fun acc e => let '(_, t', a) := e in
+                          if String.eqb t t' then (acc + Q2Qc (inject_Z (Z.of_nat (edge_mult e s))) * weight_of a)%Qc else acc) es 0%Qc.
 Definition is_input (inputs : list string) (k : okey) : bool := existsb (String.eqb (snd k)) inputs.
 Definition obs_ok (inputs : list string) (model : hout) (keys : list (okey * val)) (pairs : list (string * string * Qc)) : bool :=
   match model with
